@@ -37,6 +37,13 @@ def main(argv=None) -> int:
         program = Program(args.repo)
         ctx = Ctx(pid, program, args.tier, seed)
         ctx.t0 = t0
+        ctx.note("normalisation", {
+            "modules_parsed": len(program.modules),
+            "modules_identical_to_reference_tree": sum(1 for m in program.modules.values() if getattr(m, "same_as_reference", False)),
+            "function_locals_renamed_to_reference_names": sum(m.renamed_locals for m in program.modules.values()),
+            "private_functions_renamed_to_reference_names": getattr(program, "renamed_private_functions", 0),
+            "rule": "DESIGN.md 1.4: alpha-normalisation of locals / private function names, canonical comparison orientation, "
+                    "positive two-armed tests, augmented assignment, merged nested ifs, folded temp-returns"})
         try:
             mod.run(ctx)
         except AnalysisError as e:
